@@ -96,10 +96,25 @@ type anchorsFile struct {
 	Doc       string            `json:"_doc"`
 	Functions map[string]string `json:"functions"`
 	Loose     map[string]string `json:"loose"`
+	Body      map[string]string `json:"body"`
 }
+
+// bodyPrint: the fingerprint without receiver and parameters (results and
+// body contents only) — recognises a function moved to another receiver.
+func bodyPrint(full, loose string, sig *types.Signature) string {
+	q := func(p *types.Package) string { return p.Name() }
+	var rs []string
+	for i := 0; i < sig.Results().Len(); i++ {
+		rs = append(rs, types.TypeString(sig.Results().At(i).Type(), q))
+	}
+	return "->(" + strings.Join(rs, ",") + ")" + strings.TrimPrefix(full, loose)
+}
+
+var bodyPrints = map[string]string{}
 
 func (c *Ctx) allFingerprints() (full, loose map[string]string, objs map[string]types.Object) {
 	full, loose, objs = map[string]string{}, map[string]string{}, map[string]types.Object{}
+	bodyPrints = map[string]string{}
 	for obj, fd := range c.funcDecls {
 		f, ok := obj.(*types.Func)
 		if !ok {
@@ -108,6 +123,9 @@ func (c *Ctx) allFingerprints() (full, loose map[string]string, objs map[string]
 		name := rawQName(f)
 		fp, lp := c.fingerprint(f, fd)
 		full[name], loose[name], objs[name] = fp, lp, obj
+		if fd != nil && fd.Body != nil && len(fd.Body.List) > 1 {
+			bodyPrints[name] = bodyPrint(fp, lp, f.Type().(*types.Signature))
+		}
 	}
 	return
 }
@@ -126,7 +144,7 @@ func dumpAnchors(repo, path string) error {
 		return err
 	}
 	full, loose, _ := c.allFingerprints()
-	af := anchorsFile{Doc: "Fingerprints of the functions of the reference tree (written by `bclverif -dump-anchors`); used only to recognise a renamed function, never as a verdict.", Functions: full, Loose: loose}
+	af := anchorsFile{Doc: "Fingerprints of the functions of the reference tree (written by `bclverif -dump-anchors`); used only to recognise a renamed function, never as a verdict.", Functions: full, Loose: loose, Body: bodyPrints}
 	b, _ := json.MarshalIndent(af, "", " ")
 	return os.WriteFile(path, b, 0o644)
 }
@@ -165,7 +183,7 @@ func (c *Ctx) resolveAliases() []string {
 			}
 			var cands []string
 			for _, e := range extra {
-				if !used[e] && have[e] == ref[m] {
+				if !used[e] && ref[m] != "" && have[e] == ref[m] {
 					cands = append(cands, e)
 				}
 			}
@@ -184,6 +202,9 @@ func (c *Ctx) resolveAliases() []string {
 		}
 	}
 	match(af.Functions, full, "full")
+	if af.Body != nil {
+		match(af.Body, bodyPrints, "body")
+	}
 	match(af.Loose, loose, "signature")
 	return notes
 }
